@@ -151,7 +151,7 @@ def selftest(mod: Any, repo: str, seed: int) -> dict:
                 struct_alarms.append({"twin": obj, "fired": fired, "error": err})
         else:
             seeded_total += 1
-            det = bool(fired)
+            det = any(r != "ANALYSIS-ERROR" for r in fired)  # an analysis error is not a detection
             seeded_detected += 1 if det else 0
             seeded_details.append({"seeded": obj, "fired": fired, "detected": det})
     return {
